@@ -4,7 +4,7 @@ tools/verify_seed.py and, if confirmed, stores it as /verif/seeded/<CNN>-<X>/ (p
 import json, os, shutil, subprocess, sys
 VERIF = os.path.dirname(os.path.dirname(os.path.abspath(__file__)))
 pid, x, pkgdir, needs = sys.argv[1:5]
-src = f"/tmp/seed-out/{pid}"
+src = os.environ.get("SEED_SRC", "/tmp/seed-out") + f"/{pid}"
 patch = f"{src}/{x}.patch.diff"
 demo = f"{src}/demo_{pid}_{x}_test.go"
 p = subprocess.run([os.path.join(VERIF, "tools/verify_seed.py"), patch, demo, pkgdir], stdout=subprocess.PIPE, stderr=subprocess.STDOUT, text=True)
